@@ -67,17 +67,19 @@ def _ev(e, env):
     """exact integer value of a bound expression (floor / ceiling / max / min / + - * / over the integers) at an integer point"""
     import math
     from fractions import Fraction
-    e = sp.sympify(e)
-    syms = tuple(sorted(e.free_symbols, key=str))
-    key = (sp.srepr(e), syms)
-    fn = _COMPILED.get(key)
-    if fn is None:
-        fn = sp.lambdify(syms, e, modules=[{"floor": math.floor, "ceiling": math.ceil, "Max": max, "Min": min, "Abs": abs}, "math"])
-        _COMPILED[key] = fn
-    missing = [s_ for s_ in syms if s_ not in env]
-    if missing:
-        raise AnalysisError(f"block-loop bound {e} has an unknown {missing[0]} that is not enumerated")
-    v = fn(*[Fraction(int(env[s_])) for s_ in syms])
+    key = id(e)
+    hit = _COMPILED.get(key)
+    if hit is None or hit[0] is not e:
+        e_ = sp.sympify(e)
+        syms = tuple(sorted(e_.free_symbols, key=str))
+        fn = sp.lambdify(syms, e_, modules=[{"floor": math.floor, "ceiling": math.ceil, "Max": max, "Min": min, "Abs": abs}, "math"])
+        hit = (e, syms, fn)             # the expression object is kept, so its id stays its own
+        _COMPILED[key] = hit
+    _, syms, fn = hit
+    try:
+        v = fn(*[Fraction(int(env[s_])) for s_ in syms])
+    except KeyError as ke:
+        raise AnalysisError(f"block-loop bound {e} has an unknown {ke} that is not enumerated")
     return math.floor(v)
 
 
